@@ -84,10 +84,14 @@ fn add_correction(ts: Timestamp, correction: TimeInterval) -> Timestamp {
             .expect("Nanosecond correction should already be in a proper range for an u32."),
     );
 
+    // Remote-provided timestamps and corrections can take the result outside of the 48 bits
+    // of seconds a PTP timestamp has. Wrap around in that case, the seconds are reduced
+    // further when converting to NTP time anyway.
     let corrected_seconds = ts
         .seconds()
         .wrapping_add_signed(correction_seconds)
-        .wrapping_add(intermediate_nanos.div_euclid(1_000_000_000).into());
+        .wrapping_add(intermediate_nanos.div_euclid(1_000_000_000).into())
+        % (1 << 48);
     let corrected_nanos = intermediate_nanos.rem_euclid(1_000_000_000);
 
     Timestamp::new(corrected_seconds, corrected_nanos)
